@@ -20,21 +20,64 @@ From H3V Require Import Base.Bytes Spec.RFC9000 Spec.QuinnApi Spec.AdapterSpec M
 (* for EVERY program of send-side calls and EVERY oracle (any accepted sizes, Pending anywhere, errors
    anywhere): what Quinn has been handed, followed by what is still waiting in `writing`, is exactly the
    concatenation of the buffers send_data accepted - each once, whole, in order, nothing of a refused
-   buffer; the program never panics *)
+   buffer - as long as no poll_ready / poll_finish has reported an error (`no_write_failure`: once Quinn refuses a
+   write the stream can send nothing any more and the rest of the buffer in flight is given up, see
+   C17_write_failure_gives_up); the program never panics, errors or not *)
 Theorem C17_write_exact_partial :
   forall ops id o tr s' o', id <= varint_max ->
     send_run ops (send_new (qsend_new id)) o = (tr, s', o') ->
-    qs_log (s_q s') ++ view_opt (s_writing s') = spec_handed (map abs_send tr) /\
+    (Forall no_write_failure tr -> qs_log (s_q s') ++ view_opt (s_writing s') = spec_handed (map abs_send tr)) /\
     Forall send_ev_ok tr /\ map fst tr = ops.
 Proof. exact write_exact_new. Qed.
 
-(* finish: for every program (abandoned writes included) and every oracle, when poll_finish answers Ready(Ok)
+(* (i) in EVERY reachable state - after errors too - of every program, for every oracle whose write failures are final
+   (Spec.AdapterSpec.fail_is_final: what Quinn does, observed on real Quinn by the `sa=K` cases): what Quinn has been
+   handed is a PREFIX of the concatenation of the buffers send_data accepted, in order - nothing duplicated, nothing
+   interleaved, nothing of a refused buffer; while no write has failed the missing rest is exactly what waits in `writing` *)
+Theorem C17_handed_is_prefix_partial :
+  forall ops id o tr s' o', fail_is_final o ->
+    send_run ops (send_new (qsend_new id)) o = (tr, s', o') ->
+    exists rest, qs_log (s_q s') ++ rest = spec_handed (map abs_send tr) /\
+      (Forall no_write_failure tr -> rest = view_opt (s_writing s')).
+Proof. exact handed_is_prefix. Qed.
+
+(* (iii) a write error is sticky and stays a STREAM error (repaired defect F24: the buffer used to stay in `writing`, so
+   h3's next send_data was refused with the connection-level InternalError and the whole connection was closed): once
+   poll_ready has reported Quinn's refusal e, `writing` is empty, the next send_data is accepted, and in every later
+   program Quinn is handed nothing more and every error reported by poll_ready / poll_send (and by a poll_finish that
+   has to write first) is e again - same class, same code; poll_finish with nothing to write reports only what
+   finish() itself says; send_data is refused (InternalError) only by its own overlap rule *)
+Theorem C17_write_error_is_sticky :
+  forall o s e s' o', fail_is_final o -> poll_ready o s = (Ready (Err e), s', o') ->
+    s_writing s' = None /\
+    (forall b, send_data b s' = (Ok tt, {| s_q := s_q s'; s_writing := Some b |})) /\
+    forall ops tr s2 o2, send_run ops s' o' = (tr, s2, o2) ->
+      qs_log (s_q s2) = qs_log (s_q s') /\ Forall (sticky_ev e) tr.
+Proof. exact write_error_is_sticky. Qed.
+
+(* Quinn refuses a write (STOP_SENDING from the peer, connection lost, stream already finished), in any state, after
+   any accepted pieces: poll_ready reports the error in the class of Quinn's answer, `writing` is emptied, what Quinn
+   took before the failure stays in place (a prefix of log ++ buffer, nothing else added), and the send half is usable
+   again: the next send_data is ACCEPTED (not refused as a misuse of the stream by h3) and its poll_ready reports
+   Quinn's next refusal in its class *)
+Theorem C17_write_failure_gives_up :
+  forall o s e s' o', poll_ready o s = (Ready (Err e), s', o') ->
+    s_writing s' = None /\
+    (exists rest, qs_log (s_q s') ++ rest = qs_log (s_q s) ++ view_opt (s_writing s)) /\
+    (exists qe used, o = used ++ WFail qe :: o' /\ e = spec_write_class qe) /\
+    (forall b, send_data b s' = (Ok tt, {| s_q := s_q s'; s_writing := Some b |})) /\
+    (forall b qe2 o2, wb_has_remaining b = true ->
+       fst (fst (poll_ready (WFail qe2 :: o2) {| s_q := s_q s'; s_writing := Some b |})) = Ready (Err (spec_write_class qe2))).
+Proof. exact write_failure_gives_up. Qed.
+
+(* finish: for every program (abandoned writes included) in which no write has failed, and every oracle, when poll_finish answers Ready(Ok)
    every buffer send_data accepted has been handed to Quinn completely, in order, BEFORE the stream is finished
    (poll_finish drains `writing` first; Pending while Quinn pends; a write error is returned instead) *)
 Theorem C17_finish_hands_over_everything_partial :
   forall ops id o tr s' o',
     send_run (ops ++ [OPollFinish]) (send_new (qsend_new id)) o = (tr, s', o') ->
     (exists tr0, tr = tr0 ++ [(OPollFinish, SRPoll (Ready (Ok tt)))]) ->
+    Forall no_write_failure tr ->
     s_writing s' = None /\ qs_finished (s_q s') = true /\
     qs_log (s_q s') = spec_handed (map abs_send tr).
 Proof. exact finish_hands_over_everything. Qed.
@@ -53,13 +96,16 @@ Theorem C17_write_complete_partial :
   forall ops id o tr s' o',
     send_run (ops ++ [OPollReady]) (send_new (qsend_new id)) o = (tr, s', o') ->
     (exists tr0, tr = tr0 ++ [(OPollReady, SRPoll (Ready (Ok tt)))]) ->
+    Forall no_write_failure tr ->
     s_writing s' = None /\ qs_log (s_q s') = spec_handed (map abs_send tr).
 Proof. exact write_complete_new. Qed.
 
-(* one poll_ready call, any oracle: the split chosen by Quinn does not matter *)
+(* one poll_ready call, any oracle: the split chosen by Quinn does not matter; unless the call reports an error nothing
+   is lost, and in every case what Quinn holds plus what still waits is a prefix of what was there *)
 Theorem C17_poll_ready_any_split_partial :
   forall o s r s' o', poll_ready o s = (r, s', o') ->
-    qs_log (s_q s') ++ view_opt (s_writing s') = qs_log (s_q s) ++ view_opt (s_writing s) /\
+    (~ poll_failed r -> qs_log (s_q s') ++ view_opt (s_writing s') = qs_log (s_q s) ++ view_opt (s_writing s)) /\
+    (exists rest, qs_log (s_q s') ++ view_opt (s_writing s') ++ rest = qs_log (s_q s) ++ view_opt (s_writing s)) /\
     poll_not_panic r /\ (r = Ready (Ok tt) -> s_writing s' = None) /\ (exists used, o = used ++ o').
 Proof. exact poll_ready_any_split. Qed.
 
@@ -116,7 +162,9 @@ Proof. exact send_id_constant_new. Qed.
 (* for every receive-side program and oracle: recv_id always answers the stream's id; nothing panics
    (given encodable stop codes and a Quinn that never reports IllegalOrderedRead, which it only does after
    an unordered read - the adapter performs none); T4: the stops Quinn was given and the stop still held
-   are those of the abstract delivery rule; the application sees exactly Quinn's answers, in order *)
+   are those of the abstract delivery rule; the application sees exactly Quinn's answers, in order, and - once a
+   read has reported the peer's reset - that reset again for every further read (Spec.AdapterSpec.spec_reads:
+   outcomes and the answers Quinn has left, as a function of the number of reads and Quinn's answers) *)
 Theorem C17_recv_program_partial :
   forall id ops o r tr r' o', id <= varint_max ->
     recv_new (qrecv_new id) = Ok r -> recv_run ops r o = (tr, r', o') ->
@@ -125,20 +173,37 @@ Theorem C17_recv_program_partial :
     (exists q, underlying r' = Some q /\ qr_id q = id /\
        qr_stops q = delivered (stop_run {| in_flight := false; held := None; delivered := [] |} (map abs_recv tr))) /\
     r_pending_stop r' = held (stop_run {| in_flight := false; held := None; delivered := [] |} (map abs_recv tr)) /\
-    (exists used, o = used ++ o' /\ spec_read_outcomes spec_read_class used = ready_outcomes tr).
+    spec_reads spec_read_class None (count_polls ops) o = (ready_outcomes tr, o').
 Proof. exact recv_program_ok. Qed.
 
-(* after a FAILED read (peer reset, connection closed, timed out ...) the Quinn stream is back in `self.stream`:
+(* the peer's reset is sticky (repaired defect F23: Quinn answers every read after the one that reported the reset
+   with a clean end of stream, which made a truncated message look complete): in EVERY reachable state in which no
+   reset has been reported yet, when a read reports the peer's reset (code c) then, for every later program and
+   whatever Quinn would answer, every poll_data reports StreamTerminated(c) again - never Ok(None), never another
+   class -, Quinn is not asked any more (its answers are left untouched), and recv_id keeps answering the id *)
+Theorem C17_reset_is_sticky :
+  forall id r c o, recv_inv id r -> r_reset r = None ->
+    exists r1, poll_data (RFail (QRReset c) :: o) r = (Ready (Err (HStreamTerminated c)), r1, o) /\
+      recv_inv id r1 /\
+      forall ops o2 tr r2 o3, recv_run ops r1 o2 = (tr, r2, o3) ->
+        Forall (fun ev => fst ev = OPollData -> snd ev = RRData (Ready (Err (HStreamTerminated c)))) tr /\
+        Forall (fun ev => fst ev = ORecvId -> snd ev = RRId (Ok id)) tr /\
+        o3 = o2 /\ r_reset r2 = Some c.
+Proof. exact reset_is_sticky. Qed.
+
+(* after a FAILED read (peer reset, connection closed, timed out ...; `r_reset r = None`: the read did go to Quinn -
+   the other case is C17_reset_is_sticky) the Quinn stream is back in `self.stream`:
    the error has its class, the stream can be polled again without panic whatever Quinn answers next, recv_id
    still answers the id, and a stop_sending is delivered at once (nothing parked).  Together with
    C17_recv_program_partial (whose invariant holds in EVERY reachable state, after errors too) *)
 Theorem C17_reread_after_failed_read :
-  forall id r e o, recv_inv id r -> e <> QRIllegalOrderedRead ->
+  forall id r e o, recv_inv id r -> r_reset r = None -> e <> QRIllegalOrderedRead ->
     exists cls r2 q2,
       poll_data (RFail e :: o) r = (Ready (Err cls), r2, o) /\ spec_read_class e = Some cls /\
       r_stream r2 = Some q2 /\ r_pending_stop r2 = None /\ recv_inv id r2 /\ recv_id r2 = Ok id /\
       (forall c, c <= varint_max ->
-         stop_sending c r2 = (Ok tt, {| r_id := r_id r2; r_stream := Some (q_stop c q2); r_fut := r_fut r2; r_pending_stop := None |})) /\
+         stop_sending c r2 = (Ok tt, {| r_id := r_id r2; r_stream := Some (q_stop c q2); r_fut := r_fut r2; r_pending_stop := None;
+                                        r_reset := r_reset r2 |})) /\
       (forall a o', a <> RFail QRIllegalOrderedRead ->
          exists x r3 o3, poll_data (a :: o') r2 = (x, r3, o3) /\ poll_not_panic x /\ recv_inv id r3 /\ recv_id r3 = Ok id).
 Proof. exact after_failed_read. Qed.
@@ -212,7 +277,7 @@ Proof. exact reset_code_spec. Qed.
 (* ---- T4: deferred STOP_SENDING ---- *)
 
 Theorem C17_deferred_stop_delivered_once :
-  forall r q c, underlying r = Some q -> r_stream r = None -> c <= varint_max ->
+  forall r q c, underlying r = Some q -> r_stream r = None -> r_reset r = None -> c <= varint_max ->
     exists r1, stop_sending c r = (Ok tt, r1) /\
       underlying r1 = Some q /\ r_stream r1 = None /\ r_pending_stop r1 = Some c /\
       (forall o, exists r2, poll_data (RBlocked :: o) r1 = (Pending, r2, o) /\
@@ -246,6 +311,21 @@ Example C17_write_inhabited :
     qs_log (s_q s') = [0;5;1;2;3;4;5;7;7] /\ s_writing s' = None.
 Proof. do 3 eexists. split; [vm_compute; reflexivity|]. repeat split. Qed.
 
+(* the peer stops the stream in the middle of a buffer: the error is StreamTerminated with its code, the rest of the
+   buffer is given up, the next send_data is accepted and fails the same way *)
+Example C17_write_failure_inhabited :
+  let ops := [OSendData [[0;4]; [1;2;3;4]]; OPollReady; OSendData [[9;9]]; OPollReady; OPollFinish] in
+  let o := [WAccept 2; WAccept 1; WFail (QWStopped 268); WFail (QWStopped 268)] in
+  exists tr s' o', send_run ops (send_new (qsend_new 8)) o = (tr, s', o') /\
+    map snd tr = [SRUnit (Ok tt); SRPoll (Ready (Err (HStreamTerminated 268))); SRUnit (Ok tt);
+                  SRPoll (Ready (Err (HStreamTerminated 268))); SRPoll (Ready (Ok tt))] /\
+    qs_log (s_q s') = [0;4;1] /\ s_writing s' = None /\ ~ Forall no_write_failure tr /\ fail_is_final o.
+Proof.
+  do 3 eexists. split; [vm_compute; reflexivity|]. split; [reflexivity|]. split; [reflexivity|]. split; [reflexivity|].
+  split; [|cbn; repeat constructor].
+  intros H. inversion H as [|? ? _ H1]; subst. inversion H1 as [|? ? H2 _]; subst. apply H2. exact I.
+Qed.
+
 Example C17_progress_inhabited :
   nonempty_chunks [[0;5]; [1;2]; [3;4;5]] /\
   no_fail [WAccept 0; WAccept 1; WBlocked; WAccept 2; WBlocked; WBlocked; WAccept 100; WAccept 9] /\
@@ -264,7 +344,23 @@ Example C17_recv_inhabited :
     r_stream r' = Some {| qr_id := 3; qr_stops := [268] |} /\ r_pending_stop r' = None.
 Proof. do 4 eexists. split; [vm_compute; reflexivity|]. split; [vm_compute; reflexivity|]. repeat split. Qed.
 
+(* mid-stream reset, then three more reads (Quinn would say: end of stream, data, blocked), an id query and a stop:
+   the reset is reported every time, Quinn's later answers are never consumed *)
+Example C17_reset_is_sticky_inhabited :
+  let ops := [OPollData; OPollData; OPollData; ORecvId; OStopSending 5; OPollData; OPollData] in
+  let o := [RChunk [1;2]; RFail (QRReset 267); RFin; RChunk [9]; RBlocked] in
+  exists r tr r' o', recv_new (qrecv_new 4) = Ok r /\ recv_run ops r o = (tr, r', o') /\
+    map snd tr = [RRData (Ready (Ok (Some [1;2]))); RRData (Ready (Err (HStreamTerminated 267)));
+                  RRData (Ready (Err (HStreamTerminated 267))); RRId (Ok 4); RRStop (Ok tt);
+                  RRData (Ready (Err (HStreamTerminated 267))); RRData (Ready (Err (HStreamTerminated 267)))] /\
+    o' = [RFin; RChunk [9]; RBlocked] /\ r_reset r' = Some 267 /\
+    spec_reads spec_read_class None (count_polls ops) o = (ready_outcomes tr, o').
+Proof. do 4 eexists. split; [vm_compute; reflexivity|]. split; [vm_compute; reflexivity|]. repeat split. Qed.
+
 Print Assumptions C17_write_exact_partial.
+Print Assumptions C17_write_failure_gives_up.
+Print Assumptions C17_handed_is_prefix_partial.
+Print Assumptions C17_write_error_is_sticky.
 Print Assumptions C17_finish_hands_over_everything_partial.
 Print Assumptions C17_overlapping_poll_send_refused.
 Print Assumptions C17_close_code.
@@ -276,6 +372,7 @@ Print Assumptions C17_drop_keeps_handed_bytes.
 Print Assumptions C17_overlapping_send_refused.
 Print Assumptions C17_send_id_constant.
 Print Assumptions C17_recv_program_partial.
+Print Assumptions C17_reset_is_sticky.
 Print Assumptions C17_reread_after_failed_read.
 Print Assumptions C17_recv_id_while_read_pending.
 Print Assumptions C17_bidi_ids_agree.
